@@ -460,28 +460,21 @@ func (p *Parser) checkNewVariableNameToken(token lexer.Token, ctx context) error
 }
 
 func (p *Parser) getUsedFuncs(startFunc string) []string {
-	usedFuncs := []string{}
-	startFunc = strings.TrimSpace(startFunc)
+	return p.collectUsedFuncs(strings.TrimSpace(startFunc), []string{})
+}
 
-	if usedFuncsTemp, exists := p.usedFuncs[startFunc]; exists {
-		if len(startFunc) > 0 && !slices.Contains(usedFuncs, startFunc) {
-			usedFuncs = append(usedFuncs, startFunc)
-		}
-
-		for _, usedFuncTemp := range usedFuncsTemp {
-			if !slices.Contains(usedFuncs, usedFuncTemp) {
-				usedFuncs = append(usedFuncs, usedFuncTemp)
-			}
-			usedSubFuncs := p.getUsedFuncs(usedFuncTemp)
-
-			for _, usedSubFunc := range usedSubFuncs {
-				if !slices.Contains(usedFuncs, usedSubFunc) {
-					usedFuncs = append(usedFuncs, usedSubFunc)
-				}
-			}
-		}
+// collectUsedFuncs adds name and every function reachable from it to collected.
+// A name that has been collected already is not visited again.
+func (p *Parser) collectUsedFuncs(name string, collected []string) []string {
+	if slices.Contains(collected, name) {
+		return collected
 	}
-	return usedFuncs
+	collected = append(collected, name)
+
+	for _, usedFunc := range p.usedFuncs[name] {
+		collected = p.collectUsedFuncs(usedFunc, collected)
+	}
+	return collected
 }
 
 func (p *Parser) cleanProgram(program Program) (Program, error) {
